@@ -121,6 +121,10 @@ package keeper
 //@        && o.OutputRoot == outputRoot(bat(req.Version, 0), req.StorageRoot, req.LastBlockHash)          // C03: output_root_matches
 //@   ensures err == nil ==> foldNode(h, arr(req.WithdrawalProofs), len(req.WithdrawalProofs)) == req.StorageRoot   // C03: proof_folds_to_storage_root
 //@   ensures err == nil ==> a > 0 && a < 18446744073709551616 && addrOK(1, req.To) && len(req.From) > 0 && validDenom(d)   // C04: validated
+//@   ensures !(OutputProposals[(b, req.OutputIndex)] != None && BridgeConfigs[b] != None && isFinal(now, o.L1BlockTime, cfg.FinalizationPeriod)
+//@        && len(req.Version) == 1 && o.OutputRoot == outputRoot(bat(req.Version, 0), req.StorageRoot, req.LastBlockHash)
+//@        && foldNode(h, arr(req.WithdrawalProofs), len(req.WithdrawalProofs)) == req.StorageRoot)
+//@        ==> ProvenWithdrawals == old(ProvenWithdrawals) && bank.bal == old(bank.bal)                      // C03: unproven_claim_leaves_no_trace (in the handler's own context, before any transaction rollback)
 //@   ensures addrOK(1, req.Sender) && addrOK(1, req.To) && len(req.From) > 0 && validDenom(d) && a > 0 && a < 18446744073709551616
 //@        && req.Sequence != 0 && b != 0 && req.OutputIndex != 0 && len(req.Version) == 1 && len(req.StorageRoot) == 32 && len(req.LastBlockHash) == 32
 //@        && (forall j int :: 0 <= j && j < len(req.WithdrawalProofs) ==> len(req.WithdrawalProofs[j]) == 32)
